@@ -4,6 +4,7 @@ package main
 // own story (events are attributed through a context value).
 
 import (
+	"context"
 	"errors"
 	"fmt"
 	"strings"
@@ -15,6 +16,8 @@ import (
 	"github.com/failsafe-go/failsafe-go/fallback"
 	"github.com/failsafe-go/failsafe-go/ratelimiter"
 	"github.com/failsafe-go/failsafe-go/retrypolicy"
+	"github.com/failsafe-go/failsafe-go/timeout"
+	"github.com/failsafe-go/failsafe-go/verifrt/vcontext"
 	"github.com/failsafe-go/failsafe-go/verifrt/vrt"
 )
 
@@ -351,6 +354,60 @@ func c16ListenerSubsetScenarios(tier string) []*Scenario {
 					vrt.Mark(fmt.Sprint(done.n, succ.n, fail.n, v, err))
 				}})
 			}
+		}
+	}
+	return out
+}
+
+// c17ListenerCancelScenarios: a cancellation that lands while a retry policy's OnRetry listener runs
+// (the listener cancels the caller's context itself, or is slow under an enclosing Timeout): a retry
+// that was counted is a retry that was started, so in the done event Attempts = function invocations
+// (nothing rejects here), Retries = Attempts - 1 and Executions = invocations that returned.
+func c17ListenerCancelScenarios(tier string) []*Scenario {
+	var out []*Scenario
+	for _, how := range []string{"listener-cancels-context", "slow-listener-under-timeout"} {
+		for _, async := range []bool{false, true} {
+			how, async := how, async
+			out = append(out, &Scenario{Name: fmt.Sprintf("C17/retry-%s async=%v", how, async), Bound: 1, Body: func() {
+				ctx, cancel := vcontext.WithCancel(context.Background())
+				defer cancel()
+				rb := retrypolicy.Builder[int]().WithMaxRetries(2)
+				var pols []failsafe.Policy[int]
+				if how == "listener-cancels-context" {
+					rb = rb.OnRetry(func(failsafe.ExecutionEvent[int]) { cancel() })
+				} else {
+					rb = rb.OnRetry(func(failsafe.ExecutionEvent[int]) { vrt.Sleep(100) })
+					pols = append(pols, timeout.With[int](50))
+				}
+				pols = append(pols, rb.Build())
+				invoked, returned := 0, 0
+				var att, exe, ret, nDone int
+				ex := failsafe.NewExecutor[int](pols...).WithContext(ctx).OnDone(func(e failsafe.ExecutionDoneEvent[int]) {
+					nDone++
+					att, exe, ret = e.Attempts(), e.Executions(), e.Retries()
+				})
+				fn := func() (int, error) {
+					invoked++
+					vrt.Sleep(5)
+					returned++
+					return 0, E1
+				}
+				var err error
+				if async {
+					_, err = ex.GetAsync(fn).Get()
+				} else {
+					_, err = ex.Get(fn)
+				}
+				vrt.Sleep(300) // an attempt started around the cancellation finishes
+				vrt.Mark(fmt.Sprint(att, exe, ret, invoked, err))
+				if nDone != 1 {
+					vrt.Fail(fmt.Sprintf("OnDone fired %d times", nDone))
+					return
+				}
+				if att != invoked || ret != att-1 || exe > invoked {
+					vrt.Fail(fmt.Sprintf("done event: Attempts=%d Retries=%d Executions=%d, the function was invoked %d times (returned %d times) and nothing was rejected", att, ret, exe, invoked, returned))
+				}
+			}})
 		}
 	}
 	return out
